@@ -339,6 +339,15 @@ ResetEval(ok, keep) ==
 \* phases in which the optimizer may return
 Terminable == phase \in {"trial", "end", "jacfailed", "mustend", "setfailed", "resetsetfailed"}
               \/ (phase = "jac" /\ pend = AllIdx)
+\* NAMED DEVIATION "parameters applied behind the cache": after the optimizer has finished, fit() applies
+\* parameters to the MODEL directly (not through the problem): the model then holds parameters the cache
+\* does not belong to.  C02 / C09 / C10 forbid it.
+PostFitSet(aid, ok) ==
+  /\ Terminable
+  /\ phase' = "end"
+  /\ tgt' = IF ok THEN aid ELSE tgt
+  /\ UNCHANGED <<np, acc, own, aid0, nfev, nevals, pend, seenNone, faultSeen, patience, stats, statFault>>
+
 \* the optimizer's verdict must be a failure once it has seen an absent value
 MustFail == seenNone
 
